@@ -133,9 +133,12 @@ def releaseW (s : PackState) (i : Nat) (w : PWorker) : PackState :=
   let s1 := s.setW i { w with pc := .released, cur := none }
   { s1 with users := s1.users - 1 }
 
+def waitingSlot : PBPc → Bool
+  | .cSlotWait _ _ | .sSlotWait _ _ => true
+  | _ => false
+
 def grantQueued (s : PackState) : PackState :=
-  let waiting : Bool := match s.bpc with | .cSlotWait _ _ | .sSlotWait _ _ => true | _ => false
-  if waiting ∧ !s.granted ∧ s.users < 1 then { s with users := s.users + 1, granted := true } else s
+  if waitingSlot s.bpc ∧ !s.granted ∧ s.users < 1 then { s with users := s.users + 1, granted := true } else s
 
 def requestSlot (s : PackState) : PackState :=
   if s.users < 1 then { s with users := s.users + 1, granted := true } else { s with granted := false }
@@ -258,14 +261,14 @@ def worker (s : PackState) (i : Nat) (w : PWorker) (t : Nat) (a : Ans) : PackSta
       let tok := toks.getD idx 0
       let cancels := (others toks idx).map (fun p => Call.cp p.1 p.2)
       let s1 := { s with outsel := s.outsel ++ [idx], processed := s.processed + 1, emitted := s.emitted ++ [u] }
-      s1.emitLoop i { w with cur := none } t w.todo a.cans a.sels (cancels ++ [putCall idx tok u])
+      (s1.setW i { w with cur := none }).emitLoop i { w with cur := none } t w.todo a.cans a.sels (cancels ++ [putCall idx tok u])
     | _, _ => (s.setW i { w with pc := .crashed }, [.crash .value])
   | .outTok e tok =>
     match w.cur with
     | some u =>
       if !a.trig.contains tok then ({ s with flagged := true }, [.bad]) else
       let s1 := { s with processed := s.processed + 1, emitted := s.emitted ++ [u] }
-      s1.emitLoop i { w with cur := none } t w.todo a.cans a.sels [putCall e tok u]
+      (s1.setW i { w with cur := none }).emitLoop i { w with cur := none } t w.todo a.cans a.sels [putCall e tok u]
     | none => ({ s with flagged := true }, [.bad])
   | .pushWait sub _ =>
     match s.pushes.find? (fun p => p.ord = sub) with
@@ -296,31 +299,28 @@ def pushStep (s : PackState) (p : PPush) (a : Ans) : PackState × List Call :=
       ({ s with pushes := s.pushes.map (fun (q : PPush) => if q.ord = p.ord then p' else q), emitted := s.emitted ++ [p.unit] },
        [putCall p.edge tok p.unit])
 
-/-- splitter, top of the loop with an index policy -/
+/-- splitter, top of the loop: state check, then reserve on the in-edge(s) the policy names -/
 def splitterTop (s : PackState) (t : Nat) (a : Ans) (pre : List Call) : PackState × List Call :=
-  match s.chk t with
-  | none => s.crashB .value pre
-  | some s1 =>
-    match s.cfg.inPol with
-    | .fa =>
-      let toks := (List.range s.cfg.nin).map (· + s1.nextTok)
-      ({ s1 with bpc := .inAny toks, nextTok := s1.nextTok + s.cfg.nin },
-       pre ++ (List.range s.cfg.nin).map (fun j => .rg j (s1.nextTok + j)) ++ [.awaitAny s.cfg.nin])
-    | _ =>
-      let (k?, rr', c0) := selIdx s.cfg.inPol s1.rrIn s.cfg.nin a
-      match k? with
-      | none => ({ s1 with bpc := .dead, flagged := true }, pre ++ [.bad])
-      | some k =>
-        if k < 0 ∨ k ≥ s.cfg.nin then ({ s1 with rrIn := rr' }).crashB .assertion (pre ++ c0)
-        else
-          let j := k.toNat
-          ({ s1 with rrIn := rr', insel := s1.insel ++ [j], bpc := .inTok j s1.nextTok, nextTok := s1.nextTok + 1 },
-           pre ++ c0 ++ [.rg j s1.nextTok, .awaitTok])
+  let s1 := s.chk! t
+  match s.cfg.inPol with
+  | .fa =>
+    let toks := (List.range s.cfg.nin).map (· + s1.nextTok)
+    ({ s1 with bpc := .inAny toks, nextTok := s1.nextTok + s.cfg.nin },
+     pre ++ (List.range s.cfg.nin).map (fun j => .rg j (s1.nextTok + j)) ++ [.awaitAny s.cfg.nin])
+  | _ =>
+    let (k?, rr', c0) := selIdx s.cfg.inPol s1.rrIn s.cfg.nin a
+    match k? with
+    | none => ({ s1 with bpc := .dead, flagged := true }, pre ++ [.bad])
+    | some k =>
+      if k < 0 ∨ k ≥ s.cfg.nin then ({ s1 with rrIn := rr' }).crashB .assertion (pre ++ c0)
+      else
+        let j := k.toNat
+        ({ s1 with rrIn := rr', insel := s1.insel ++ [j], bpc := .inTok j s1.nextTok, nextTok := s1.nextTok + 1 },
+         pre ++ c0 ++ [.rg j s1.nextTok, .awaitTok])
 
 def combinerTop (s : PackState) (t : Nat) (pre : List Call) : PackState × List Call :=
-  match s.chk t with
-  | none => s.crashB .value pre
-  | some s1 => ({ s1 with bpc := .palletWait s1.nextTok, nextTok := s1.nextTok + 1 }, pre ++ [.rg 0 s1.nextTok, .awaitTok])
+  let s1 := s.chk! t
+  ({ s1 with bpc := .palletWait s1.nextTok, nextTok := s1.nextTok + 1 }, pre ++ [.rg 0 s1.nextTok, .awaitTok])
 
 /-- the tokens the combiner reserves for one pallet: `target[e]` on every in-edge e ≥ 1, in edge
     order; `false` if the recipe vector is too short (IndexError after the reservations already made) -/
@@ -353,19 +353,30 @@ def gatherLoop : Nat → List (Nat × Nat) → Unit' → List Nat → List GotIt
           (trig ++ it.woke) items' (acc ++ [.get e tok it.id])
       | _, _ => (toks, pal, acc ++ [.bad], .badAct)
 
-def behaviour (s : PackState) (t : Nat) (a : Ans) : PackState × List Call :=
+/-- `reset()`: a constant edge index out of range fails its assertion -/
+def badCfg (cfg : PackCfg) : Bool :=
+  (match cfg.kind, cfg.inPol with | .splitter, .const k => decide (k < 0 ∨ k ≥ cfg.nin) | _, _ => false) ||
+  (match cfg.outPol with | .const k => decide (k < 0 ∨ k ≥ cfg.nout) | _ => false)
+
+/-- `reset()` and the two assertions, then the set-up delay -/
+def startB (s : PackState) : PackState × List Call :=
+  if badCfg s.cfg then s.crashB .assertion [] else ({ s with bpc := .setupWait }, [.wait s.cfg.setup])
+
+def bad (s : PackState) : PackState × List Call := ({ s with flagged := true }, [.bad])
+
+/-- the slot is granted: occupancy histogram -/
+def slotGranted (s : PackState) (t : Nat) : PackState :=
+  { s with occ := addAt s.occ s.numWorkers (t - s.lastOcc), numWorkers := s.numWorkers + 1, lastOcc := t, granted := false }
+
+def spawnW (s : PackState) (w : PWorker) : PackState := { s with workers := s.workers ++ [w], nextProc := s.nextProc + 1 }
+
+/-- Combiner.behaviour -/
+def bComb (s : PackState) (t : Nat) (a : Ans) : PackState × List Call :=
   match s.bpc with
-  | .start =>
-    let badIn : Bool := match s.cfg.kind, s.cfg.inPol with | .splitter, .const k => decide (k < 0 ∨ k ≥ s.cfg.nin) | _, _ => false
-    let badOut : Bool := match s.cfg.outPol with | .const k => decide (k < 0 ∨ k ≥ s.cfg.nout) | _ => false
-    if badIn || badOut then s.crashB .assertion [] else ({ s with bpc := .setupWait }, [.wait s.cfg.setup])
-  | .setupWait =>
-    let s1 := { s with clock := s.clock.update 1 t }
-    match s.cfg.kind with
-    | .combiner => s1.combinerTop t []
-    | .splitter => s1.splitterTop t a []
+  | .start => s.startB
+  | .setupWait => ({ s with clock := s.clock.update 1 t }).combinerTop t []
   | .palletWait tok =>
-    if !a.trig.contains tok then ({ s with flagged := true }, [.bad]) else
+    if !a.trig.contains tok then s.bad else
     match a.items with
     | it :: _ =>
       if !it.pallet then s.crashB .runtime [.get 0 tok it.id] else       -- "The first in_edge must supply Pallet type items only."
@@ -375,31 +386,40 @@ def behaviour (s : PackState) (t : Nat) (a : Ans) : PackState × List Call :=
       let calls := [Call.get 0 tok it.id] ++ toks.map (fun p => Call.rg p.2 p.1)
       if !ok then s1.crashB .index calls
       else ({ s1 with bpc := .gather toks pal }, calls ++ [.awaitAny toks.length])
-    | [] => ({ s with flagged := true }, [.bad])
+    | [] => s.bad
   | .gather toks pal =>
     let (toks', pal', calls, res) := gatherLoop (toks.length + 1) toks pal a.trig a.items []
-    let s1 := s
-    if res = .badAct then ({ s1 with flagged := true }, calls) else
-    if res = .wrongType then s1.crashB .runtime calls else
+    if res = .badAct then ({ s with flagged := true }, calls) else
+    if res = .wrongType then s.crashB .runtime calls else
     if toks'.isEmpty then
       match a.draws with
-      | d :: _ =>
-        let s2 := s1.requestSlot
-        ({ s2 with bpc := .cSlotWait pal' d }, calls ++ [.draw d, .awaitReq])
-      | [] => ({ s1 with flagged := true }, calls ++ [.bad])
-    else ({ s1 with bpc := .gather toks' pal' }, calls ++ [.awaitAny toks'.length])
+      | d :: _ => ({ s.requestSlot with bpc := .cSlotWait pal' d }, calls ++ [.draw d, .awaitReq])
+      | [] => ({ s with flagged := true }, calls ++ [.bad])
+    else ({ s with bpc := .gather toks' pal' }, calls ++ [.awaitAny toks'.length])
   | .cSlotWait pal d =>
-    if !s.granted then ({ s with flagged := true }, [.bad]) else
+    if !s.granted then s.bad else
     if s.numWorkers ≥ s.occ.length then s.crashB .index [] else
-    let s1 := { s with occ := addAt s.occ s.numWorkers (t - s.lastOcc), numWorkers := s.numWorkers + 1, lastOcc := t,
-                       granted := false, pds := s.pds ++ [d] }
+    let s1 := { s.slotGranted t with pds := s.pds ++ [d] }
     ({ s1 with clock := s1.clock.update 2 t, bpc := .cProc pal }, [.wait d])
   | .cProc pal =>
     let w : PWorker := { ord := s.nextProc, todo := [pal], plan := [pal] }
-    let s1 := { s with workers := s.workers ++ [w], nextProc := s.nextProc + 1 }
-    match s1.chk t with
-    | none => s1.crashB .value [.spawn w.ord]
-    | some s2 => s2.combinerTop t [.spawn w.ord]
+    ((s.spawnW w).chk! t).combinerTop t [.spawn w.ord]
+  | _ => s.bad
+
+/-- the units a splitter worker has to emit for the pulled object: its items in order, then the object itself -/
+def unitsOfItem (it : GotItem) : List Unit' := it.content.map (fun c => ({ id := c } : Unit')) ++ [{ id := it.id }]
+
+def mkSplitWorker (ord : Nat) (it : GotItem) (d : Nat) : PWorker :=
+  { ord := ord, delay := d, todo := unitsOfItem it, notPallet := !it.pallet, plan := unitsOfItem it }
+
+def pulledSplit (s : PackState) (t : Nat) (w : PWorker) (d : Nat) (pal : Unit') : PackState :=
+  { (s.slotGranted t).spawnW w with pds := s.pds ++ [d], pulledPallets := s.pulledPallets ++ [pal] }
+
+/-- Splitter.behaviour -/
+def bSplit (s : PackState) (t : Nat) (a : Ans) : PackState × List Call :=
+  match s.bpc with
+  | .start => s.startB
+  | .setupWait => ({ s with clock := s.clock.update 1 t }).splitterTop t a []
   | .inAny toks =>
     match firstTrig toks a.trig with
     | some idx =>
@@ -409,25 +429,23 @@ def behaviour (s : PackState) (t : Nat) (a : Ans) : PackState × List Call :=
       ({ s1 with bpc := .sSlotWait idx tok }, cancels ++ [.awaitReq])
     | none => s.crashB .value []
   | .inTok e tok =>
-    if !a.trig.contains tok then ({ s with flagged := true }, [.bad]) else
-    let s1 := s.requestSlot
-    ({ s1 with bpc := .sSlotWait e tok }, [.awaitReq])
+    if !a.trig.contains tok then s.bad else
+    ({ s.requestSlot with bpc := .sSlotWait e tok }, [.awaitReq])
   | .sSlotWait e tok =>
-    if !s.granted then ({ s with flagged := true }, [.bad]) else
+    if !s.granted then s.bad else
     if s.numWorkers ≥ s.occ.length then s.crashB .index [] else
-    let s1 := { s with occ := addAt s.occ s.numWorkers (t - s.lastOcc), numWorkers := s.numWorkers + 1, lastOcc := t, granted := false }
     match a.items, a.draws with
     | it :: _, d :: _ =>
-      let pal : Unit' := { id := it.id, content := it.content }
-      let units := it.content.map (fun c => ({ id := c } : Unit')) ++ [{ id := it.id }]
-      let w : PWorker := { ord := s1.nextProc, delay := d, todo := units, notPallet := !it.pallet, plan := units }
-      let s2 := { s1 with workers := s1.workers ++ [w], nextProc := s1.nextProc + 1, pds := s1.pds ++ [d],
-                          pulledPallets := s1.pulledPallets ++ [pal] }
-      match s2.chk t with
-      | none => s2.crashB .value [.get e tok it.id, .draw d, .spawn w.ord]
-      | some s3 => s3.splitterTop t { a with sels := a.sels } [.get e tok it.id, .draw d, .spawn w.ord]
-    | _, _ => ({ s with flagged := true }, [.bad])
-  | .dead => ({ s with flagged := true }, [.bad])
+      let w := mkSplitWorker s.nextProc it d
+      let s2 := s.pulledSplit t w d { id := it.id, content := it.content }
+      (s2.chk! t).splitterTop t a [.get e tok it.id, .draw d, .spawn w.ord]
+    | _, _ => s.bad
+  | _ => s.bad
+
+def behaviour (s : PackState) (t : Nat) (a : Ans) : PackState × List Call :=
+  match s.cfg.kind with
+  | .combiner => s.bComb t a
+  | .splitter => s.bSplit t a
 
 def step (s0 : PackState) (proc t : Nat) (a : Ans) : PackState × List Call :=
   if t < s0.now then ({ s0 with flagged := true }, [.bad]) else
